@@ -72,7 +72,7 @@ def run(ctx):
     sub = report.Ctx('C04', ctx.tier, ctx.repo)
     sub._mir, sub._ast, sub._grammar = ctx._mir, ctx._ast, ctx._grammar
     c04.run(sub)
-    rebadge(ctx, sub, {'R04.0': 'R01.1', 'R04.2': 'R01.2', 'R04.5': 'R01.2b', 'R04.3': 'R01.3'})
+    rebadge(ctx, sub, {'R04.0': 'R01.1', 'R04.2': 'R01.2', 'R04.5': 'R01.2b', 'R04.3': 'R01.3', 'R04.8': 'R01.10'})
 
     # ---------------- R01.4 native registration agreement
     r4 = ctx.rule('R01.4', 'native registrations: argument indices, downcasts and result variants agree with the declared spec')
